@@ -93,6 +93,12 @@ func genLuaExec(seed uint64, tier, variant string) any {
 	// goroutine finds the queued command at once or goes to sleep first and then delays the flush by 20 fake
 	// microseconds is a race between two free-running goroutines; with a delay the bytes appear only after a tick
 	p.Opt.MaxFlushDelayUs = 0
+	// A queue that fills up (2-8 slots for up to 6 tasks) makes putters wait inside the queue; when the connection then
+	// dies, the clean-up loop, the writer and the woken putters contend for slot locks while running freely, and who
+	// finds a lock taken is the Go runtime's choice (full queues are C02's subject): at least 16 slots per connection.
+	if p.Opt.RingScale < 4 {
+		p.Opt.RingScale = 4
+	}
 	p.Opt.ConnLifetimeMs = 0 // lifetime expiry re-sends commands (known finding under C03): not what this check is about
 	p.Sched = SchedSpec{CutProb: pick(r, 0.0, 0.3), C2SCutProb: pick(r, 0.0, 0.3), MaxSteps: 8000, TickWeight: pick(r, 0.3, 1.0)}
 	x := luaX{}
